@@ -11,7 +11,10 @@ package kcp
 
 import (
 	"fmt"
+	"sync/atomic"
 	"testing"
+	"testing/synctest"
+	"time"
 )
 
 type fecPos struct {
@@ -327,5 +330,104 @@ func TestVerifC07(t *testing.T) {
 			}
 		})
 		rec.sample("large-groups", 2, desc)
+	}
+
+	// ---- part 4: what the decoder rebuilt reaches the stream (sessions) ----------
+	// One FEC group of d messages, the datagram of one of them lost, the parity
+	// delivered: every message must be readable one network delay later — long
+	// before any retransmission timer (30 ms at least) could have repaired it.
+	for q := 0; q < env.pickN(96, 960); q++ {
+		idx := caseIdx
+		caseIdx++
+		if !env.mine(idx) {
+			continue
+		}
+		rng := rec.seed(uint64(idx), 74)
+		dp := pick(rng, [][2]int{{2, 1}, {3, 1}, {3, 2}, {5, 2}, {10, 1}, {10, 3}})
+		d := dp[0]
+		lost := rng.intn(d)
+		sizes := make([]int, d)
+		switch q % 4 {
+		case 0: // all equal: the rebuilt packet has no padding at all
+			for i := range sizes {
+				sizes[i] = 200
+			}
+		case 1: // the lost one is the longest
+			for i := range sizes {
+				sizes[i] = rng.between(1, 300)
+			}
+			sizes[lost] = 301
+		case 2: // the lost one is the shortest
+			for i := range sizes {
+				sizes[i] = rng.between(2, 300)
+			}
+			sizes[lost] = 1
+		default:
+			for i := range sizes {
+				sizes[i] = rng.between(1, 1000)
+			}
+		}
+		desc := map[string]any{"part": "session-recovery", "case": idx, "d": d, "p": dp[1], "lost": lost, "sizes": sizes, "cipher": pick(rng, []string{"", "aes-128", "salsa20", "aes-128-gcm"})}
+		rec.beginCase(desc)
+		synctest.Test(t, func(t *testing.T) {
+			w, _, client, cconn, server := c13World(t, rec, desc, linkCfg{D: d, P: dp[1], Cipher: desc["cipher"].(string), UDPAddr: rng.chance(0.5)}, uint64(idx))
+			defer yieldMode.Store(0)
+			buf := make([]byte, 4096)
+			// bring the client's encoder to a group boundary
+			for i := 0; i < 2*d+2; i++ {
+				client.mu.Lock()
+				sc := client.fecEncoder.shardCount
+				client.mu.Unlock()
+				if sc == 0 {
+					break
+				}
+				client.Write([]byte("filler"))
+				time.Sleep(20 * time.Millisecond)
+				synctest.Wait()
+				server.SetReadDeadline(time.Now().Add(time.Millisecond))
+				server.Read(buf)
+			}
+			time.Sleep(50 * time.Millisecond)
+			synctest.Wait()
+			var nth atomic.Int64
+			claddr := cconn.addr.String()
+			w.hub.setFate(func(from, to string, n int, now int64, data []byte) []int {
+				if from == claddr {
+					if int(nth.Add(1))-1 == lost {
+						return nil
+					}
+				}
+				return []int{c13Delay}
+			})
+			stream := uint64(0x7700) + uint64(idx)
+			off := uint64(0)
+			for _, sz := range sizes {
+				b := make([]byte, sz)
+				fillContent(stream, off, b)
+				off += uint64(sz)
+				client.Write(b)
+			}
+			time.Sleep((c13Delay + 2) * time.Millisecond)
+			synctest.Wait()
+			off = 0
+			for i, sz := range sizes {
+				server.SetReadDeadline(time.Now().Add(time.Millisecond))
+				n, err := server.Read(buf)
+				if err != nil {
+					rec.violationf(desc, "C07 [session] a packet the decoder could rebuild did not reach the stream", "message %d of %d (%d bytes; message %d was lost on the wire, %d parity packets arrived) not readable %d ms after it was sent: %v; FECRecovered=%d", i, d, sz, lost, dp[1], c13Delay+2, err, DefaultSnmp.Copy().FECRecovered-w.snmp0.FECRecovered)
+					break
+				}
+				if n != sz || checkContent(stream, off, buf[:n]) >= 0 {
+					rec.violationf(desc, "C07 [session] rebuilt packet differs from the original", "message %d: %d bytes read, %d written", i, n, sz)
+					break
+				}
+				off += uint64(sz)
+			}
+			rec.eval(1)
+			rec.count("session_groups_with_a_lost_data_packet", 1)
+			rec.nontrivial(hashAny(desc))
+			w.shutdown(nil, true)
+		})
+		rec.sample("session-recovery", 1, desc)
 	}
 }
